@@ -17,6 +17,7 @@ func constantBool(c *ssa.Const) bool     { return constant.BoolVal(c.Value) }
 func constantString(c *ssa.Const) string { return constant.StringVal(c.Value) }
 
 func (fr *frame) unop(instr *ssa.UnOp, x Value) Value {
+	x = fr.m.forceFloat(x)
 	m := fr.m
 	if p, bad := x.(Poison); bad {
 		if instr.Op == token.MUL {
@@ -53,6 +54,7 @@ func (fr *frame) unop(instr *ssa.UnOp, x Value) Value {
 }
 
 func (fr *frame) binop(op token.Token, tx, ty types.Type, x, y Value) Value {
+	x, y = fr.m.forceFloat(x), fr.m.forceFloat(y)
 	m := fr.m
 	if p, bad := x.(Poison); bad {
 		return p
@@ -253,6 +255,7 @@ func strEq(x, y Value) *term.Term {
 
 // equals builds the term for x == y at static type t.
 func (m *Machine) equals(t types.Type, x, y Value) *term.Term {
+	x, y = m.forceFloat(x), m.forceFloat(y)
 	switch x := x.(type) {
 	case *term.Term:
 		return term.Eq(x, y.(*term.Term))
@@ -341,6 +344,7 @@ func (m *Machine) equals(t types.Type, x, y Value) *term.Term {
 }
 
 func (fr *frame) conv(tdst, tsrc types.Type, x Value) Value {
+	x = fr.m.forceFloat(x)
 	m := fr.m
 	if p, bad := x.(Poison); bad {
 		return p
@@ -379,6 +383,11 @@ func (fr *frame) conv(tdst, tsrc types.Type, x Value) Value {
 		}
 		if isFloat(tdst) {
 			_, ssigned, _ := intInfo(tsrc)
+			if !x.IsConst() {
+				// most converted integers only feed metrics and logs: keep the conversion lazy and
+				// concretise when (if ever) the float is computed with
+				return LazyFloat{T: fr.toInt64(x, tsrc), Signed: ssigned, F32: tdst.Underlying().(*types.Basic).Kind() == types.Float32}
+			}
 			v := m.Concretize(fr.toInt64(x, tsrc), "int→float")
 			var f float64
 			if ssigned {
@@ -1031,4 +1040,30 @@ func (fr *frame) appendSlice(fn *ssa.Builtin, args []Value) Value {
 		}
 	}
 	return out
+}
+
+// LazyFloat is an integer term converted to floating point whose value has not been needed yet.
+type LazyFloat struct {
+	T      *term.Term
+	Signed bool
+	F32    bool
+}
+
+// forceFloat concretises a lazy float (one path per feasible value) when it is computed with.
+func (m *Machine) forceFloat(v Value) Value {
+	lf, ok := v.(LazyFloat)
+	if !ok {
+		return v
+	}
+	c := m.Concretize(lf.T, "int→float")
+	var f float64
+	if lf.Signed {
+		f = float64(c)
+	} else {
+		f = float64(uint64(c))
+	}
+	if lf.F32 {
+		f = float64(float32(f))
+	}
+	return f
 }
